@@ -61,6 +61,12 @@ CHECKS = {
     "C18": dict(cat="exploration", tech="runtime monitoring: in-process property-based monitor (recover around every call) with schema-driven boundary-class argument generation, law oracles and a differential check Call vs expression Evaluate/Type",
                 text="For all generated argument lists of every built-in function (only values the declared parameter schemas accept): no panic (one known finding), deterministic results accepted by the declared or derived result type, and the documented laws held; the same holds through the expression library.",
                 note="Argument classes are sampled (boundary values plus random); readFile/getEnvVar only for totality and determinism.", ref="8/C18"),
+    "C19": dict(cat="exploration", tech="runtime monitoring: reference validator/normaliser oracle vs deploy counter and plugin-visible values, over generated schemas x single-point invalidations through both entry points",
+                text="Every clearly invalid document was refused with an error before any plugin was deployed for execution, and for every valid document both steps and the workflow output observed exactly the reference normalisation (typed values, defaults), through Execute and through engine.Workflow.Run.",
+                note="Reference normaliser vlib/ref.py covers the generated schema subset; convertible border cases are not generated.", ref="8/C19"),
+    "C20": dict(cat="exploration", tech="runtime monitoring: differential monitor engine API (files on disk, abs/relative context, several working directories, memory/disk caches, repetitions) vs direct Prepare+Execute vs reference; real CLI binary for exit codes",
+                text="All explored workflow trees gave the same id and data through the engine entry point and through direct execution, equal to the reference, with outputIsError exactly on declared/named error outputs, independently of working directory, cache kind and repetition; the command line exit codes matched the table.",
+                note="Trusted: scripted deployer registered by reassigning engine.DefaultDeployerRegistry (harness) and an overlaid init() for the CLI.", ref="8/C20"),
 }
 
 NOT_APPLICABLE = {}
